@@ -31,12 +31,12 @@ import (
 // Zero-length filters are not generated here (known defect D1, owned by C09).
 
 type c08Filter struct {
-	Kind    int    `json:"k"`           // 0 node list, 1 tag regex, 2 node-type + garbage, 3 tag-type + garbage, 4 unknown type byte
-	Names   []int  `json:"names"`       // node list: indices into the name pool (relative to the receiver name)
-	Tag     int    `json:"tag"`         // index into c08TagNames
-	Expr    string `json:"expr"`        // regular expression
-	Garbage []byte `json:"garbage"`     // bytes after the type byte (kinds 2,3)
-	Type    int    `json:"type"`        // type byte for kind 4 (2..255)
+	Kind    int    `json:"k"`       // 0 node list, 1 tag regex, 2 node-type + garbage, 3 tag-type + garbage, 4 unknown type byte
+	Names   []int  `json:"names"`   // node list: indices into the name pool (relative to the receiver name)
+	Tag     int    `json:"tag"`     // index into c08TagNames
+	Expr    string `json:"expr"`    // regular expression
+	Garbage []byte `json:"garbage"` // bytes after the type byte (kinds 2,3)
+	Type    int    `json:"type"`    // type byte for kind 4 (2..255)
 }
 
 type c08Query struct {
